@@ -25,7 +25,10 @@ import (
 	"net/http"
 	"net/netip"
 	"os"
+	"os/exec"
 	"reflect"
+	"runtime"
+	"sort"
 	"strings"
 	"sync"
 	"syscall"
@@ -47,12 +50,14 @@ type vnetHop struct {
 }
 
 type vnetCase struct {
-	ID        int       `json:"id"`
-	Kind      string    `json:"kind"`
-	AllowForm string    `json:"allowform"`
-	Allow     []string  `json:"allow"`
-	Variant   int       `json:"variant"`
-	Hops      []vnetHop `json:"hops"`
+	ID        int        `json:"id"`
+	Kind      string     `json:"kind"`
+	AllowForm string     `json:"allowform"`
+	Allow     []string   `json:"allow"`
+	Variant   int        `json:"variant"`
+	Hops      []vnetHop  `json:"hops"`
+	Prev      []vnetCase `json:"prev"` // history cases: the fetches the same process performs before this one
+	Step      int        `json:"step"` // 0, or the position of this fetch in its history (1-based)
 }
 
 type vnetHopRec struct {
@@ -82,6 +87,8 @@ type vnetClientRec struct {
 type vnetFlowRec struct {
 	T          string        `json:"t"`
 	ID         int           `json:"id"`
+	Step       int           `json:"step"`
+	Mode       string        `json:"mode"`
 	Kind       string        `json:"kind"`
 	AllowForm  string        `json:"allowform"`
 	Allow      [][]int       `json:"allow"`
@@ -289,6 +296,7 @@ type vnetRun struct {
 	conns    []vnetConnRec
 	lookups  int
 	notes    []string
+	real     bool // the connect attempts were derived from the real client's own guard (realGuard)
 }
 
 func vnetNewRun(c vnetCase) *vnetRun { return &vnetRun{c: c} }
@@ -351,6 +359,56 @@ func (r *vnetRun) wrapHost(guard vnetDialFunc) vnetDialFunc {
 		r.dialHost = h
 		r.mu.Unlock()
 		return guard(ctx, network, addr)
+	}
+}
+
+// realGuard drives the dial guard installed in the REAL client object (closure over whatever configuration that
+// object really carries): the guard is called with a network name no dialer knows, so every dial attempt it lets
+// through ends in net.UnknownNetworkError before a socket exists.  The guard resolves through net.DefaultResolver
+// (= the fake name server); the attempts are the first `tried` addresses of that resolver's answer.
+func (r *vnetRun) realGuard(guard vnetDialFunc) vnetDialFunc {
+	r.real = true
+	return func(ctx context.Context, network, addr string) (net.Conn, error) {
+		host, port, err := net.SplitHostPort(addr)
+		if err != nil {
+			return nil, err
+		}
+		r.mu.Lock()
+		var zone map[string][]net.IP
+		if r.hop >= 1 && r.hop <= len(r.c.Hops) {
+			zone = vnetHopZone(r.c.Hops[r.hop-1])
+		}
+		r.mu.Unlock()
+		vnetSetZone(zone)
+		ips, _ := net.DefaultResolver.LookupIPAddr(ctx, host)
+		vnetSetZone(zone) // the guard's own lookup is the first one again
+		conn, gerr := guard(ctx, "verifnet", addr)
+		if gerr == nil {
+			if conn != nil {
+				conn.Close()
+			}
+			r.mu.Lock()
+			r.notes = append(r.notes, "the real guard returned a connection: the harness leaked a connection")
+			r.mu.Unlock()
+			return nil, errors.New("verif: unexpected connection")
+		}
+		n := vnetCountUnknownNet(gerr)
+		if n > len(ips) {
+			r.mu.Lock()
+			r.notes = append(r.notes, fmt.Sprintf("the real guard made %d dial attempts for %d resolved addresses", n, len(ips)))
+			r.mu.Unlock()
+		}
+		for i := 0; i < n; i++ {
+			if i < len(ips) {
+				r.record(net.JoinHostPort(ips[i].IP.String(), port))
+			} else {
+				r.record("unknown:" + port)
+			}
+		}
+		if n > 0 {
+			return nil, &net.OpError{Op: "dial", Net: network, Err: errVnetAbort}
+		}
+		return nil, gerr
 	}
 }
 
@@ -437,7 +495,11 @@ func (r *vnetRun) finish(client vnetClientRec, outcome string) vnetFlowRec {
 	r.mu.Lock()
 	defer r.mu.Unlock()
 	c := r.c
-	rec := vnetFlowRec{T: "flow", ID: c.ID, Kind: c.Kind, AllowForm: c.AllowForm, Allow: vnetIntsList(c.Allow), AllowStr: c.Allow,
+	mode := "rewired"
+	if r.real {
+		mode = "realguard"
+	}
+	rec := vnetFlowRec{T: "flow", ID: c.ID, Step: c.Step, Mode: mode, Kind: c.Kind, AllowForm: c.AllowForm, Allow: vnetIntsList(c.Allow), AllowStr: c.Allow,
 		Hops: r.hops, Conns: r.conns, Client: client, Outcome: outcome, ReplayViol: []string{}, Diverged: append([]string{}, r.notes...), Lookups: r.lookups}
 	if rec.Hops == nil {
 		rec.Hops = []vnetHopRec{}
@@ -470,6 +532,13 @@ func (r *vnetRun) finish(client vnetClientRec, outcome string) vnetFlowRec {
 			want = append(want, vnetEff(p))
 		}
 		same := len(got) == len(want)
+		if same && c.Kind != "image" && r.real {
+			// the real guard walks the answers in the resolver's own order
+			g, w := append([]string{}, got...), append([]string{}, want...)
+			sort.Strings(g)
+			sort.Strings(w)
+			got, want = g, w
+		}
 		if same && c.Kind != "image" {
 			for k := range got {
 				same = same && got[k] == want[k]
@@ -548,6 +617,125 @@ func vnetCountUnknownNet(err error) int {
 		return vnetCountUnknownNet(e.Unwrap())
 	}
 	return 0
+}
+
+// ---------------------------------------------------------------------------------------------- histories
+
+// vnetFetches is the history of a case: the earlier fetches of the process, then the case itself.
+func vnetFetches(c vnetCase) []vnetCase {
+	out := []vnetCase{}
+	for i, p := range c.Prev {
+		p.ID, p.Step = c.ID, i+1
+		out = append(out, p)
+	}
+	c.Step = len(c.Prev) + 1
+	c.Prev = nil
+	return append(out, c)
+}
+
+// vnetHistParent replays the histories in fresh processes (this test binary, re-executed): whatever the code under
+// test keeps between fetches starts empty.  Starting a process costs about half a CPU second (package initialisation),
+// so the histories that begin with the same fetch a share one process, which runs them back to back:
+// a b1 .. | a b2 .. | a b3 ..  Every model history is a contiguous segment of what that process really did, its first
+// fetch is the first fetch the process ever made, and every record is judged on its own configuration only.
+func vnetHistParent(testName string, cases []vnetCase, fw *vnetWriter, dir string) (int, error) {
+	groups := map[string][]vnetCase{}
+	var order []string
+	for _, c := range cases {
+		first := c
+		if len(c.Prev) > 0 {
+			first = c.Prev[0]
+		}
+		first.ID, first.Prev = 0, nil
+		kb, _ := json.Marshal(first)
+		k := string(kb)
+		if _, ok := groups[k]; !ok {
+			order = append(order, k)
+		}
+		groups[k] = append(groups[k], c)
+	}
+	workers := runtime.NumCPU() / 2
+	if workers < 2 {
+		workers = 2
+	}
+	if workers > 8 {
+		workers = 8
+	}
+	type result struct {
+		lines []string
+		err   error
+	}
+	results := make([]result, len(order))
+	var wg sync.WaitGroup
+	next := make(chan int)
+	for w := 0; w < workers; w++ {
+		wg.Add(1)
+		go func() {
+			defer wg.Done()
+			for i := range next {
+				g := groups[order[i]]
+				path := fmt.Sprintf("%s/hist-%s-%d.ndjson", dir, testName, i)
+				gw, err := vnetCreate(path)
+				if err != nil {
+					results[i] = result{err: err}
+					continue
+				}
+				want := 0
+				for _, c := range g {
+					gw.put(c)
+					want += len(c.Prev) + 1
+				}
+				gw.close()
+				cmd := exec.Command(os.Args[0], "-test.run=^"+testName+"$", "-test.timeout=600s")
+				cmd.Env = append(os.Environ(), "VERIF_NET_ONE="+path)
+				out, err := cmd.CombinedOutput()
+				os.Remove(path)
+				var lines []string
+				for _, l := range strings.Split(string(out), "\n") {
+					if strings.HasPrefix(l, "REC ") {
+						lines = append(lines, l[4:])
+					}
+				}
+				if err != nil || len(lines) != want {
+					if len(out) > 3000 {
+						out = out[len(out)-3000:]
+					}
+					results[i] = result{err: fmt.Errorf("history process %d: child failed (%v), %d of %d records:\n%s", i, err, len(lines), want, out)}
+					continue
+				}
+				results[i] = result{lines: lines}
+			}
+		}()
+	}
+	for i := range order {
+		next <- i
+	}
+	close(next)
+	wg.Wait()
+	for _, r := range results {
+		if r.err != nil {
+			return 0, r.err
+		}
+		for _, l := range r.lines {
+			fw.w.WriteString(l)
+			fw.w.WriteByte('\n')
+			fw.n++
+		}
+	}
+	return len(order), nil
+}
+
+// vnetHistChild: the histories of one process, in order.
+func vnetHistChild(path string) ([]vnetCase, error) {
+	return vnetLoad(path, map[string]bool{"crl": true, "ocsp": true, "image": true})
+}
+
+func vnetPrintRec(v any) {
+	b, err := json.Marshal(v)
+	if err != nil {
+		panic(err)
+	}
+	fmt.Println("REC " + string(b))
 }
 
 // ---------------------------------------------------------------------------------------------- files
